@@ -47,15 +47,32 @@ def copy_loop_obligations(ctx, rep, rule):
         mode = c.args[1] if len(c.args) > 1 else next((k.value for k in c.keywords if k.arg == "mode"), None)
         if not (isinstance(mode, ast.Constant) and mode.value == "rb"):
             problems.append("the source is not opened in binary mode ('rb')")
-    loops = [n for n in ast.walk(f.node) if isinstance(n, (ast.While, ast.For))
-             and any(isinstance(c, ast.Call) and isinstance(c.func, ast.Attribute) and c.func.attr in ("read", "read1", "readinto") for c in ast.walk(n))]
+    def _read_loops(fn):
+        return [n for n in ast.walk(fn.node) if isinstance(n, (ast.While, ast.For))
+                and any(isinstance(c, ast.Call) and isinstance(c.func, ast.Attribute) and c.func.attr in ("read", "read1", "readinto") for c in ast.walk(n))]
+
+    outparam = f.params[2] if len(f.params) > 2 else "fd"
+    loopfunc = f
+    loops = _read_loops(f)
+    if not loops:
+        # the loop may live in a helper that is handed the open file and the client's file object
+        from ..structure import helper_calls
+
+        for g, cn, caller, bind in helper_calls(prog, ctx.resolver, f, vfs, depth=1):
+            gl = _read_loops(g)
+            sink = [p_ for p_, a in bind.items() if isinstance(a, ast.Name) and a.id == outparam]
+            if gl and len(sink) == 1:
+                loopfunc, loops, outparam = g, gl, sink[0]
+                rep.analysed(g.qualname)
+                break
     if not loops and not any(isinstance(c, ast.Call) and (dotted(c.func) or "").endswith("copyfileobj") for c in ast.walk(f.node)):
         problems.append("no read loop found")
-    outparam = f.params[2] if len(f.params) > 2 else "fd"
     for loop in loops:
         walker = Walker(prog, ctx.resolver)
-        walker.frame = (f, vfs)
+        walker.frame = (loopfunc, vfs)
         walker._budget = 100000
+        body_ = [st_ for st_ in loopfunc.node.body if not (isinstance(st_, ast.Expr) and isinstance(st_.value, ast.Constant))]
+        loop_is_last = bool(body_) and body_[-1] is loop
 
         def is_read(n):
             return isinstance(n, ast.Call) and isinstance(n.func, ast.Attribute) and n.func.attr in ("read", "read1")
@@ -105,7 +122,7 @@ def copy_loop_obligations(ctx, rep, rule):
                     if a is None or not data_expr(a, s.defs):
                         problems.append(f"`{norm(wv.node)}` does not write the chunk that was read, unchanged")
                 # the iteration must have been entered with data
-            elif kind == "break":
+            elif kind == "break" or (kind == "return" and loop_is_last and (val is None or getattr(val, "kind", "") == "const" and val.value is None)):
                 ok = any(emptiness(e.node, e.defs or {}) and e.extra is False for e in tests)
                 if not ok:
                     problems.append("the loop can end on something other than an empty read (" +
@@ -206,33 +223,78 @@ def length_obligations(ctx, rep, rule):
             continue
         def _driver(fn, t, d):
             # helpers of handle() that carry part of the response logic (status line, menu/document decision)
-            return d < 3 and t.bound_cls is not None and fn.name not in ("writedir", "gethandler", "filenotfound", "log") and any(
-                isinstance(x, ast.Attribute) and x.attr in ("getsize", "isdir") for x in ast.walk(fn.node))
+            if not (d < 3 and t.bound_cls is not None) or fn.name in ("writedir", "gethandler", "filenotfound", "log", "renderobjinfo"):
+                return False
+            return any((isinstance(x, ast.Attribute) and x.attr in ("getsize", "isdir"))
+                       or (isinstance(x, ast.Constant) and isinstance(x.value, (str, bytes)) and str(x.value if isinstance(x.value, str) else x.value.decode("latin-1")).startswith("+"))
+                       for x in ast.walk(fn.node))
 
         def _isdir(val):
             return lambda call, target, st: val if isinstance(call.func, ast.Attribute) and call.func.attr == "isdir" and not call.args else None
 
+        from ..facts import expand_ast as _xa
+        from ..paths import NOCONST, const_value
+        from ..structure import concat_pieces
+
+        def length_lines(path):
+            """Values V of the `+V` length lines written along a path: ('const', n) / ('size', default) / ('other', text)."""
+            out = []
+            for e in path.calls():
+                if not (isinstance(e.node.func, ast.Attribute) and e.node.func.attr == "write" and (dotted(e.node.func.value) or "").endswith("wfile") and e.node.args):
+                    continue
+                fn = e.frame[0] if e.frame else h
+                a = _xa(e.node.args[0], fn, e.defs) if e.defs else e.node.args[0]
+                if isinstance(a, ast.Call) and isinstance(a.func, ast.Attribute) and a.func.attr == "encode":
+                    a = a.func.value
+                if isinstance(a, ast.Constant) and isinstance(a.value, bytes):
+                    a = ast.Constant(value=a.value.decode("latin-1"))
+                pcs = concat_pieces(a)
+                if not pcs or pcs[0][0] != "lit" or not pcs[0][1].startswith("+"):
+                    continue
+                if len(pcs) == 1:
+                    import re as _re
+
+                    mm = _re.fullmatch(r"\+(-?\d+)\r\n", pcs[0][1])
+                    out.append(("const", int(mm.group(1))) if mm else ("other", pcs[0][1]))
+                    continue
+                if pcs[0][1] != "+" or len(pcs) < 2 or pcs[1][0] != "expr":
+                    out.append(("other", norm(a)[:40]))
+                    continue
+                try:
+                    v = ast.parse(pcs[1][1], mode="eval").body
+                except SyntaxError:
+                    out.append(("other", pcs[1][1][:40]))
+                    continue
+                cv = const_value(prog, v, fn, P)
+                if cv is not NOCONST and isinstance(cv, int):
+                    out.append(("const", cv))
+                elif isinstance(v, ast.Call) and isinstance(v.func, ast.Attribute) and v.func.attr == "getsize":
+                    d0 = const_value(prog, v.args[0], fn, P) if v.args else None
+                    out.append(("size", d0 if d0 is not NOCONST else "?"))
+                elif isinstance(v, ast.Attribute) and v.attr == "size":
+                    out.append(("size", None))
+                else:
+                    out.append(("other", pcs[1][1][:40]))
+            return out
+
         w = Walker(prog, ctx.resolver, call_value=_isdir(TRUTHY), inline=_driver)
         problems = set()
-        n = 0
         for p in w.run(h, P):
-            for e in p.calls():
-                if isinstance(e.node.func, ast.Attribute) and e.node.func.attr == "write" and (dotted(e.node.func.value) or "").endswith("wfile"):
-                    n += 1
-                    if any(isinstance(x, ast.Attribute) and x.attr in ("getsize", "size") for a in e.node.args for x in ast.walk(a)):
-                        problems.add("a generated menu is announced with the entry's size instead of the unknown-length marker")
+            for kind, v in length_lines(p):
+                if kind == "size":
+                    problems.add("a generated menu is announced with the entry's size instead of the unknown-length marker")
+                elif kind == "other":
+                    problems.add(f"a length line announces `{v}`")
         w2 = Walker(prog, ctx.resolver, call_value=_isdir(FALSY), inline=_driver)
         sized = False
         for p in w2.run(h, P):
-            for e in p.calls():
-                if isinstance(e.node.func, ast.Attribute) and e.node.func.attr == "write" and \
-                        any(isinstance(x, ast.Attribute) and x.attr == "getsize" for a in e.node.args for x in ast.walk(a)):
+            for kind, v in length_lines(p):
+                if kind == "size":
                     sized = True
-                    for a in e.node.args:
-                        for x in ast.walk(a):
-                            if isinstance(x, ast.Call) and isinstance(x.func, ast.Attribute) and x.func.attr == "getsize":
-                                if not (x.args and norm(x.args[0]) in ("-2", "-1")):
-                                    problems.add("an unknown size is not rendered as the unknown-length marker (-1/-2)")
+                    if v not in (-1, -2):
+                        problems.add("an unknown size is not rendered as the unknown-length marker (-1/-2)")
+                elif kind == "other":
+                    problems.add(f"a length line announces `{v}`")
         if not sized:
             problems.add("documents are never announced with their length")
         rep.add(rule, f"{h.qualname}: length line (menus: unknown marker; documents: entry size or marker)", not problems, ctx.where(h),
@@ -402,7 +464,9 @@ def check(ctx, rep):
                 return None
 
             def run(assume):
-                w = Walker(prog, ctx.resolver, assumptions=assume, sticky=set(assume))
+                w = Walker(prog, ctx.resolver, assumptions=assume, sticky=set(assume),
+                           inline=lambda fn, t, d: d < 2 and t.bound_cls is not None and fn.cls is not None and fn.cls.module is h.module
+                           and fn.name not in BODY_CALLS and fn.name not in ("filenotfound", "gethandler", "log", "headerslurp", "renderobjinfo"))
                 bodies, headers = [], set()
                 for p in w.run(h, P):
                     for e in p.calls():
@@ -412,10 +476,9 @@ def check(ctx, rep):
                         elif k == "header":
                             headers.add((e.lineno, norm(e.node)))
                 return bodies, headers
-            head = {"self.requestparts[0] == 'HEAD'": Const(True), "self.requestparts[0] == 'GET'": Const(False),
-                    "self.requestparts[0] != 'HEAD'": Const(False), "self.requestparts[0] != 'GET'": Const(True)}
-            get = {"self.requestparts[0] == 'HEAD'": Const(False), "self.requestparts[0] == 'GET'": Const(True),
-                   "self.requestparts[0] != 'HEAD'": Const(True), "self.requestparts[0] != 'GET'": Const(False)}
+            # the method is a value, not a set of comparison outcomes: locals it is copied to and `in (...)` tests fold too
+            head = {"self.requestparts[0]": Const("HEAD")}
+            get = {"self.requestparts[0]": Const("GET")}
             hb_, hh = run(head)
             gb_, gh_ = run(get)
             problems = []
